@@ -80,10 +80,11 @@ def hook_wire(h):
 class WalkCase:
     """items: list of dict(before, after, tree | None (missing item)); hooks: None | True (succeeds) | False (exits 3)"""
 
-    def __init__(self, sb, items, fail_seed=0):
+    def __init__(self, sb, items, fail_seed=0, rotation=False):
         self.sb = sb
         self.items = items
         self.fail_seed = fail_seed
+        self.rotation = rotation        # the storage already holds an older group and the limit is one group: this run has to rotate
         self.src = sb.path("src")
         self.st = sb.path("st")
         self.log = sb.path("hooks.log")
@@ -99,6 +100,7 @@ class WalkCase:
                 reorder(root, it["tree"])
                 if it.get("late"):
                     os.rename(root, root + ".staged")
+        self.reset_storage()
         self.write_config()
 
     def hook_cmd(self, tag, i, h):
@@ -120,9 +122,22 @@ class WalkCase:
                 lines.append("          before: '%s'" % self.hook_cmd("B", i, it["before"]))
             if it["after"] is not None:
                 lines.append("          after: '%s'" % self.hook_cmd("A", i, it["after"]))
-        lines += ["      max_backup_groups: 3", "      max_backups_per_group: 3"]
+        lines += ["      max_backup_groups: %d" % (1 if self.rotation else 3), "      max_backups_per_group: %d" % (1 if self.rotation else 3)]
         with open(self.sb.cfg, "w") as f:
             f.write("\n".join(lines) + "\n")
+
+    OLD_GROUP = "2001.02.03"
+
+    def reset_storage(self):
+        import hashlib
+        import shutil
+        shutil.rmtree(self.st, ignore_errors=True)
+        os.makedirs(self.st)
+        if self.rotation:
+            self.sb.write_storage({"groups": [{"name": self.OLD_GROUP, "backups": [{
+                "name": self.OLD_GROUP + "-04:05:06",
+                "manifest": [{"unique": True, "hash": hashlib.sha512(b"x").hexdigest(), "fp": [1, 2, 3], "size": 1, "path_hex": b"/old/p".hex()}],
+                "entries": [{"type": "file", "path_hex": b"old/p".hex(), "data_hex": b"x".hex()}]}]}]}, self.st)
 
     def wire(self):
         return [1900, [[[hook_wire(it["before"]), hook_wire(it["after"]), [wire_node(it["tree"])] if it["tree"] is not None else []]
